@@ -106,7 +106,10 @@ def memoStep (st : MState (List Val × Args)) (tok : String) : MState (List Val 
           let r := stepM memoSites (freeBody memoSites) st (.eval i k xs)
           let spec := freeBody memoSites k (specEnv st.heap i) xs
           match r.2 with
-          | some out => (r.1, s!"{if hit then "hit" else "miss"} {showOut out} spec {showOut spec}")
+          | some out =>
+            let tag := if (siteAt memoSites k).cached && (siteAt memoSites k).placement == .instance
+              then "inst" else if hit then "hit" else "miss"
+            (r.1, s!"{tag} {showOut out} spec {showOut spec}")
           | none => (st, "bad-op")
     | _, _ => (st, "bad-op")
   | _ => (st, "bad-op")
